@@ -1414,8 +1414,8 @@ HTInew_dd_block(filerec_t *file_rec)
     list[0].blk    = block;
     HDmemfill(&list[1], &list[0], sizeof(dd_t), (uint32)ndds - 1);
 
-    if (file_rec->cache != 0) { /* if we are caching, wait to update previous DD block */
-        uint8 *tbuf;            /* temporary buffer */
+    if (file_rec->cache == 0) { /* not caching: write the empty DD list after the block header now */
+        uint8 *tbuf;            /* (when caching, HTPsync() writes the whole dirty block later) */
 
         tbuf = (uint8 *)malloc((size_t)(ndds * DD_SZ));
         if (tbuf == (uint8 *)NULL)
